@@ -199,6 +199,31 @@ def check_merge(task):
                 return V("merged-userblock", "merged user block prev_patch differs from the base's (source opened from a reversed file list)")
         finally:
             m2.close()
+        # the same source read and merged through the other record class (manifest class on a record written
+        # by the plain class and vice versa): the result must open with the merging class and show the view
+        nck += 1
+        ocls = ih5.record_class("mf" if kind == "ih5" else "ih5")
+        try:
+            r3 = ocls([Path(p) for p in pre_files], "r")
+        except Exception:
+            r3 = None  # reading through the other class is not supported for this record: nothing to check
+        if r3 is not None:
+            try:
+                try:
+                    r3.merge_files(Path(md) / "merged3")
+                except Exception as e:
+                    return V("merge-failed", f"merge_files through {ocls.__name__} on a record written by {cls.__name__} raised {type(e).__name__}: {e}")
+            finally:
+                r3.close()
+            try:
+                m3 = ocls(Path(md) / "merged3", "r")
+            except Exception as e:
+                return V("merged-does-not-open", f"the container merged through {ocls.__name__} from a record written by {cls.__name__} cannot be opened: {type(e).__name__}: {e}")
+            try:
+                if ih5lib.dump(m3) != pre_view:
+                    return V("merged-tree", f"tree of the container merged through {ocls.__name__} differs from the overlay view")
+            finally:
+                m3.close()
         # (c) chain continuation
         ops = [o for o in cfg["ops"] if o[0] != "B"]
         follows = [[o] for o in ops]
